@@ -1248,7 +1248,7 @@ void inter_copy_frame_mvs(EbDecHandle *dec_handle, BlockModeInfo *mi, int mi_row
  * 5 warped_causal 6 filter_intra 7 cfl 8 inter_intra 9 wedge_or_diffwtd_compound 10 compound 11 inter_blocks
  * 12 distance_weighted_compound 13 intra_blocks */
 static volatile uint64_t verif_tool_cnt[16];
-EB_API void svt_verif_dec_tool_stats(uint64_t *out, int reset) {
+__attribute__((visibility("default"))) void svt_verif_dec_tool_stats(uint64_t *out, int reset) {
     for (int i = 0; i < 16; i++) {
         if (out)
             out[i] = verif_tool_cnt[i];
